@@ -288,6 +288,33 @@ CLAIMED["C06"] = dict(
          "skipped and counted. The model is of the pinned code: classes repaired since print as MODEL-DRIFT predictions that the replay no longer confirms.",
     technique="TLA+ exact-function model checked by TLC; exhaustive replay into a label stub (exact) and real kernels (metamorphic, 1e-10)")
 
+
+# ---- round 2: what was added to each check after the second set of seeded changes (appended to the texts above) ----
+ROUND2 = {
+    "C01": " Round 2: the path lattice also contains each documented test-time accuracy knob tightened alone (eval_cg_tolerance etc.) on CG-sized instances, so a knob that is silently not honoured shows as an accuracy failure.",
+    "C02": " Round 2: ExactObjective.tla part history - a machine over live model objects (how each prior was registered: constructor / closure / by name; set, deepcopy, load, pickle) with the invariant that every prior term is evaluated at the current value of the parameter of THIS object; every reachable state is replayed (value and gradients, objective objects made before and after the operations).",
+    "C03": " Round 2: the Predict action carries the batch shape of the test inputs (NoStaleShape; a broken variant without the shape guard is rejected) and LoadStateDict ranges over partial dictionaries; GPCacheExt.tla repeats the slot/version-tag construction for ten further stateful families (model list, heteroskedastic noise with its nested noise GP, nearest-neighbour / LMC / independent-multitask strategies, two-layer deep GP, data-driven interpolation grids, GridKernel.update_grid, RFF, spectral mixture), with its own broken and repaired variants, and every history is replayed against a fresh twin.",
+    "C04": " Round 2: shared fantasy inputs under the model's own batch dimension are part of the supported triples, and Fantasy.tla part list enumerates IndependentModelList fantasies (member likelihood kinds x noise-list entries incl. None), each member compared with its own conditioning from scratch.",
+    "C05": " Round 2: Kernels.tla part args enumerates every optional constructor argument of every kernel family at non-default value classes (neutral arguments must leave the denotation unchanged, formula arguments must change it); exact ArcKernel delta_func and multitask/index/LCM instances; all multi-valued parameters pairwise distinct (DistinctOK).",
+    "C06": " Round 2: KernelPure.tla - a heap model of kernel objects (evaluate -> derive by kernel[i] / K[idx] / expand_batch / transpose / repeat / unsqueeze / diagonal -> evaluate the ORIGINAL again; invariants Pure and DerivedAgree, seven mutant models must be rejected) and the diag layout of the derivative kernels with pairwise distinct ARD lengthscales (LayoutOK), both replayed on label stubs and real kernels.",
+    "C07": " Round 2: the growth machine ranges over how observations are added (set_train_data, fantasies with every likelihood kind incl. learned additional noise, fantasies of fantasies, model lists) with the monotonicity invariants at every step, and the PSD lattice over every discrete kernel argument x input dimension x dense geometries.",
+    "C08": " Round 2: Batch.tla models a kernel as a tree of nodes with own / effective / parameter batch shapes (composites that inherit their batch shape), Shapes.tla makes every equality between a batch-axis size and a data-axis size a class (CoincidencesCovered), and a model-list family enumerates heterogeneous member kinds incl. fantasies with noise lists (ListIndependent).",
+    "C09": " Round 2: Structured.tla part sgpr carries a noise model (homoskedastic, fixed, fixed + additional, heteroskedastic) with the collapsed bound stated as the ELBO at the optimal q(u) (SgprElbo), and part gridsm is a state machine of grid kernels (evaluate, update_grid, dynamic re-lay, load_state_dict, train/eval) whose every evaluation must use K_UU of the CURRENT grid; all histories replayed against dense W K_UU W^T and a fresh kernel.",
+    "C10": " Round 2: the scalar alphabet of MVNOps.tla contains the algebraically special values (1, -1, 0, near-zero) in every spelling (int, float, bool, numpy, 0-dim tensor), radd/rmul and a 'factor already computed' history; log_prob of every operation result is compared unconditionally.",
+    "C11": " Round 2: MTCtor.tla states the denotation of from_batch_mvn / from_repeated_mvn / from_independent_mvns by explicit index arithmetic for batch rank <= 4 and every task_dim (both spellings, nearest invalid values), KeepsBatchOrder; replayed with labelled sources per batch member.",
+    "C12": " Round 2: LikelihoodList noise lists range over None entries at every position (a None entry must not see another member's noise).",
+    "C13": " Round 2: Quadrature.tla part rediff (with BackwardOps.tla): forward -> backward^k through one graph, every pass must deliver phi/Phi and leave the saved context untouched; replayed for log_normal_cdf over the whole range and for the gradients of BernoulliLikelihood.expected_log_prob.",
+    "C14": " Round 2: the multitask wrappers range over every position of latent_dim / task_dim / mean_var_batch_dim with equal and unequal sizes, and kl_divergence is compared in value and shape.",
+    "C15": " Round 2: forwarded keywords (noise=) and FixedNoise likelihoods with minibatches B < N, B = N (stored order, permuted, resampled), B > N; a history machine over the position of the raw variational parameters (fresh, stepped, dense-loaded) with the objective checked at the q(u) the model reports, for all five variational distribution classes.",
+    "C16": " Round 2: observed targets that equal the fill value are a value class (spec instances and replay).",
+    "C17": " Round 2: Constraint.tla has actions that change the bounds of an existing constraint object (load_state_dict, buffer assignment, dtype conversions, deepcopy) and every invariant refers to the bounds currently reported (ContractNow, LoadRestores, BoundsFollow).",
+    "C18": " Round 2: checkpoints from every save point (incl. before the first call) are loaded into a model that has already been used; the train/eval flags of all sub-modules are observables.",
+    "C19": " Round 2: KernelCalls.tla enumerates the call configurations that select between the hand-written and the generic kernel path (diag, last_dim_is_batch, x1_eq_x2, requires_grad, shared / ARD / batched lengthscale, size coincidences) with gradients of every parameter against autograd of the formula; BackwardOps.tla is a machine forward -> backward^k (retain_graph, accumulation, jacobian rows) with BWPure / BWDerivOK for all six hand-written Functions.",
+    "C20": "",
+}
+for _k, _v in ROUND2.items():
+    CLAIMED[_k]["text"] += _v
+
 PENDING = "check not built yet (build in progress; see DESIGN.md section 11)"
 NOT_APPLICABLE = {}
 
